@@ -70,6 +70,8 @@ struct ObsState {
 struct Obs {
     ctx: Arc<RunCtx>,
     chain: Arc<Chain>,
+    /// ground truth (read synchronously: InMemoryStore never suspends when uncontended)
+    inner: Arc<InMemoryStore>,
     batch_size: u64,
     sampling_window_ns: i64,
     events: Mutex<EventSubscriber>,
@@ -147,6 +149,25 @@ impl Obs {
         if let Some(h) = synced.range(from..=to).next() {
             ctx.violation("C24", "batch_shape", "overlaps_synced",
                 format!("height {h} is already stored or pruned: {}", desc()));
+        }
+        // ... and against the store itself. Only the syncer inserts and pruning only moves a
+        // height from stored to pruned, so whatever order the removals and the syncer's two reads
+        // took, a height that is pruned (or stored) now was stored or pruned in one of the reads
+        // — unless the reads were not taken as a consistent pair.
+        {
+            use futures::FutureExt;
+            let truly_pruned = self.inner.get_pruned_ranges().now_or_never().and_then(|r| r.ok()).map(|r| ranges_to_set(&r));
+            let truly_stored = self.inner.get_stored_header_ranges().now_or_never().and_then(|r| r.ok()).map(|r| ranges_to_set(&r));
+            if let (Some(tp), Some(ts)) = (truly_pruned, truly_stored) {
+                ctx.oracle("C24.batch_vs_store");
+                if let Some(h) = tp.range(from..=to).next() {
+                    ctx.violation("C24", "batch_vs_store", "requests_pruned_height",
+                        format!("height {h} of the announced batch is pruned in the store (pruned {:?}): {}", compact(&tp), desc()));
+                } else if let Some(h) = ts.range(from..=to).next() {
+                    ctx.violation("C24", "batch_vs_store", "requests_stored_height",
+                        format!("height {h} of the announced batch is stored (stored {:?}): {}", compact(&ts), desc()));
+                }
+            }
         }
         // placement
         ctx.oracle("C24.placement");
@@ -586,7 +607,9 @@ async fn run_sync(ctx: &Arc<RunCtx>, prune_any: bool) {
     // otherwise need a real daser); it may be smaller than the chain's age
     let pruning_window = sampling_window + Duration::from_secs(ctx.range("cfg.pruning_extra_s", 0, 3600));
     let batch_size = *ctx.pick("cfg.batch_size", &[16u64, 1, 7, 64, 100, 512, 600]);
-    let store_delay = ctx.choose("cfg.store_delay", 4);
+    // delay before each store call of the syncer: mostly none or a few ms, sometimes long enough
+    // for the pruner / header-sub to act between two consecutive calls
+    let store_delay = *ctx.pick("cfg.store_delay", &[0u32, 1, 2, 3, 30, 600]);
     let n_peers = ctx.range("cfg.peers", 1, 8) as usize;
     let byz_permille = if ctx.coin("cfg.byz_on", 600) { ctx.range("cfg.byz_permille", 50, 600) as u32 } else { 0 };
     // faults stop at least four block times before the pre-generated chain runs out of new heads
@@ -605,6 +628,7 @@ async fn run_sync(ctx: &Arc<RunCtx>, prune_any: bool) {
     let obs = Arc::new(Obs {
         ctx: ctx.clone(),
         chain: chain.clone(),
+        inner: inner.clone(),
         batch_size,
         sampling_window_ns: sampling_window.as_nanos() as i64,
         events: Mutex::new(events.subscribe()),
